@@ -666,13 +666,23 @@ class SqlalchemyRender:
             self._hoist_ctes = hoist_before
 
         if self.dialect.name == 'sqlite':
-            def as_operand(step):
+            def as_operand(step, node):
                 if isinstance(step, sa.sql.selectable.CompoundSelect):
                     sub = step.subquery()
                     cols = list(sub.c) or [sa.literal_column('*')]
+                    # the derived table names its columns like the first select does: a column written
+                    #  with a qualifier (t1.a) is called a there, not "t1.a"
+                    while isinstance(node, (ast.Union, ast.Intersect, ast.Except)):
+                        node = node.left
+                    if len(node.targets) == len(cols):
+                        for i, target in enumerate(node.targets):
+                            if (isinstance(target, ast.Identifier) and target.alias is None and len(target.parts) > 1
+                                    and isinstance(target.parts[-1], str)):
+                                cols[i] = sa.column(target.parts[-1])
+                                cols[i].table = sub
                     return sa.select(*cols).select_from(sub)
                 return step
-            step1, step2 = as_operand(step1), as_operand(step2)
+            step1, step2 = as_operand(step1, from_table.left), as_operand(step2, from_table.right)
 
         if isinstance(from_table, ast.Except):
             func = sa.except_ if from_table.unique else sa.except_all
